@@ -80,7 +80,7 @@ TrDebug ==
 Init == l = 1 /\ inst = <<>> /\ fnH = <<>> /\ fnP = <<>>
 Next == \/ TrReset \/ Ctor("from_seed") \/ Ctor("seed_from_u64") \/ Ctor("jit_new") \/ TrClone
         \/ Quiet("timer") \/ Quiet("set_rounds") \/ Quiet("drop")
-        \/ TrOp("next_u32") \/ TrOp("next_u64") \/ TrOp("fill_bytes") \/ TrOp("generate") \/ TrOp("timer_stats")
+        \/ TrOp("next_u32") \/ TrOp("next_u64") \/ TrOp("fill_bytes") \/ TrOp("generate") \/ TrOp("timer_stats") \/ TrOp("test_timer")
         \/ TrDebug
 Spec == Init /\ [][Next]_vars
 Accepted ==
